@@ -26,6 +26,8 @@ Inductive verdict :=
 | VStored                       (* kept as a set inside another value; its consumers are sites of their own *)
 | VEscape (callee : string) (k : kind)   (* passed to `callee`, which consumes it as kind k *)
 | VEscapeClosure (callee : string)
+| VSingleton (why : string)      (* an order-exposing consumer of a set that has at most one element here (Proofs/DetSites.v) *)
+| VFirstSuccess (why : string)   (* a loop that keeps the first success: insensitive iff the successes agree (first_success_perm) *)
 | VSensitiveUnwitnessed (why : string)   (* order can reach text; no input showing it was found *)
 | VSensitiveNotDiagnostic (why : string). (* order reaches output that is not a diagnostic *)
 
@@ -74,6 +76,9 @@ Definition generic (ctx : string) : option verdict :=
    `for composite in self.name_to_composites[..]` -- are NOT listed, so they
    fail the obligation if they come back. *)
 Definition audit : list (site * verdict) := [
+  (* KnownValue equality key (fix f24fbae): a frozenset built from a frozenset, kept inside the
+     (type, value) tuple and consumed only by ==, which is order-insensitive for frozensets *)
+  (Site "value.py" "_literal_key" "stored:Tuple" "frozenset((_literal_key(elt) for elt in val))" 0, VStored);
   (* returned / kept inside a tuple; consumers are sites of their own *)
   (Site "value.py" "MultiValuedValue._get_known_subvals" "stored:Tuple" "known_values" 0, VStored);
   (* becomes VarnameWithOrigin.origin *)
@@ -110,7 +115,7 @@ Definition audit : list (site * verdict) := [
   (Site "signature.py" "Signature.get_default_return" "comp:DictComp" "self.all_typevars" 0, VKeyedOnly);
   (* typevar.resolve_bounds_map builds {tv: Any} and overwrites by key *)
   (Site "signature.py" "Signature.check_call_with_bound_args" "kwarg:all_typevars" "self.all_typevars" 0, VKeyedOnly);
-  (Site "signature.py" "Signature.validate" "comp:GeneratorExp/join" "disallowed_previous" 0, VSensitiveUnwitnessed "text of InvalidSignature lists parameter kinds in set order");
+  (Site "signature.py" "Signature.validate" "comp:GeneratorExp/join" "disallowed_previous" 0, VSingleton "the only place that shows the InvalidSignature text builds signatures from POSITIONAL_ONLY and VAR_POSITIONAL parameters (annotations._make_callable_from_value); for these the set of disallowed previous kinds has at most one element (validate_join_is_singleton)");
   (* loop returns on the first hit, result is a boolean / constant *)
   (Site "type_object.py" "TypeObject.is_assignable_to_type" "for" "self.base_classes" 0, VKind KAny);
   (* loop returns on the first hit, result is a boolean / constant *)
@@ -125,7 +130,7 @@ Definition audit : list (site * verdict) := [
   (Site "type_object.py" "TypeObject.can_assign" "for" "other.base_classes" 0, VKind KAny);
   (* membership *)
   (Site "type_object.py" "TypeObject.can_assign" "call:safe_in" "other.base_classes" 0, VEscape "safe_in" KMember);
-  (Site "type_object.py" "TypeObject.can_assign" "for" "other.artificial_bases" 0, VSensitiveUnwitnessed "first artificial base (float/complex) matching a protocol supplies the bounds map");
+  (Site "type_object.py" "TypeObject.can_assign" "for" "other.artificial_bases" 0, VFirstSuccess "float has one artificial base (complex), a thrift enum one (int); int has {float, complex}: the first that matches the protocol supplies the bounds map. Insensitive iff at most one matches or both give the same bounds map; every attribute float and complex share also exists on int, so no input where both match with different maps was found");
   (* becomes TypeObject.base_classes *)
   (Site "checker.py" "Checker._build_type_object" "call:TypeObject" "bases" 0, VStored);
   (* iterated inside set(chain.from_iterable(..)) *)
@@ -148,7 +153,7 @@ Definition audit : list (site * verdict) := [
   (Site "checker.py" "Checker._build_type_object" "kwarg:protocol_members" "members" 0, VStored);
   (* iterated inside set(chain.from_iterable(..)) *)
   (Site "checker.py" "Checker._build_type_object" "call:_get_protocol_members" "typeshed_bases" 0, VEscape "Checker._get_protocol_members" KToSet);
-  (Site "name_check_visitor.py" "ClassAttributeChecker.check_unused_attributes" "for" "existing_attrs - attrs_read - ignored" 0, VSensitiveNotDiagnostic "prints Unused-method lines of --find-unused-attributes in set order");
+  (Site "name_check_visitor.py" "ClassAttributeChecker.check_unused_attributes" "for" "existing_attrs - attrs_read - ignored" 0, VSensitiveNotDiagnostic "prints Unused-method lines of --find-unused-attributes in set order: WITNESSED (the order of the lines for one class changes with PYTHONHASHSEED), but it is stdout of an experimental mode, not a diagnostic");
   (* returned / kept inside a tuple; consumers are sites of their own *)
   (Site "name_check_visitor.py" "NameCheckVisitor._set_name_in_scope" "stored:Tuple" "origin" 0, VStored);
   (* becomes VarnameWithOrigin.origin *)
@@ -234,6 +239,7 @@ Definition is_residual (s : site) : bool :=
   match verdict_of s with
   | Some (VSensitiveUnwitnessed _) => true
   | Some (VSensitiveNotDiagnostic _) => true
+  | Some (VFirstSuccess _) => true
   | _ => false
   end.
 
